@@ -18,6 +18,7 @@ import (
 	"github.com/akrennmair/updog/verifharness/mon"
 	"github.com/akrennmair/updog/verifharness/oracle"
 	"github.com/akrennmair/updog/verifharness/vf"
+	"google.golang.org/protobuf/proto"
 )
 
 func init() {
@@ -166,6 +167,30 @@ func c09Corpus(r *vf.Run) []parseInput {
 		}
 	}
 	add("identifier", strings.Repeat("a", 300)+`_9="1" ; `+strings.Repeat("Z_", 200))
+	// every character of the basic multilingual plane (and a sample beyond it) outside a value: where an operator, a
+	// blank or a separator belongs, and in one more place that rotates with the character
+	for c := rune(0x80); c <= 0x10ffff; c++ {
+		if c >= 0xd800 && c <= 0xdfff {
+			continue
+		}
+		if c > 0xffff {
+			c += 250 // a sample of the supplementary planes
+		}
+		ch := string(c)
+		add("rune-outside-value", `a="1" `+ch+` b="2"`)
+		switch c % 5 {
+		case 0:
+			add("rune-outside-value", ch+`a=$1`)
+		case 1:
+			add("rune-outside-value", `a`+ch+`"1"`)
+		case 2:
+			add("rune-outside-value", `a="1"`+ch+`b`)
+		case 3:
+			add("rune-outside-value", `a="1";b`+ch+`c`)
+		default:
+			add("rune-outside-value", ch+`(a="1")`+ch)
+		}
+	}
 	add("long-chain", strings.Repeat(`a="1" & `, 20000)+`b="2"`)
 	for _, n := range []int{63, 64, 65, 127, 128, 129, 255, 256, 257, 1023, 1024, 1025} {
 		add("chain-length", strings.Repeat(`a="1" & `, n-1)+`b="2"`)
@@ -283,6 +308,7 @@ func runC09(r *vf.Run) {
 	} else {
 		r.Inconclusive("race-detector build of the harness not available")
 	}
+	c09Retention(r, corpus)
 	c09DeepFinding(r)
 	r.Floor(">= 1000 accepted inputs", r.GetCount("accepted") >= 1000)
 	r.Floor(">= 1000 rejected inputs", r.GetCount("rejected") >= 1000)
@@ -500,3 +526,62 @@ func workerC09Deep(args []string) int {
 }
 
 var _ = rand.Intn
+
+// c09Retention: a parse result belongs to its caller. The trees and group-by lists of earlier calls are kept and
+// compared again after later calls (a parser that recycles buffers hands out memory it will write to again).
+func c09Retention(r *vf.Run, corpus []parseInput) {
+	if !r.Want("retention") {
+		return
+	}
+	rng := r.RNG("retention")
+	type kept struct {
+		text string
+		q    *pb.Query
+		snap []byte
+	}
+	var ring []kept
+	n := r.Pick(6000, 60000)
+	checked := 0
+	for i := 0; i < n; i++ {
+		in := corpus[rng.Intn(len(corpus))]
+		if len(in.text) > 2000 {
+			continue
+		}
+		text := in.text
+		if i%3 == 0 {
+			// a group-by list of its own, so that consecutive results differ in their lists
+			text = fmt.Sprintf(`a = "%d" ; g%d, h%d, a`, i, i%17, i%5)
+		}
+		var q *pb.Query
+		var err error
+		if p, _, _ := vf.Try(func() { q, err = queryparser.ParseQuery(text) }); p || err != nil || q == nil {
+			continue
+		}
+		snap, merr := proto.MarshalOptions{Deterministic: true}.Marshal(q)
+		if merr != nil {
+			continue
+		}
+		for _, k := range ring {
+			now, _ := proto.MarshalOptions{Deterministic: true}.Marshal(k.q)
+			checked++
+			if string(now) != string(k.snap) {
+				got, _ := oracle.FromProto(k.q.Expr)
+				gs := "<incomplete>"
+				if got != nil {
+					gs = got.String()
+				}
+				r.Violation("retention", "earlier-parse-result-changed", map[string]any{"earlier_input": fmt.Sprintf("%q", head(k.text, 500)), "later_input": fmt.Sprintf("%q", head(text, 500)),
+					"earlier_result_now": fmt.Sprintf("%s ; %q", head(gs, 500), k.q.GroupBy), "explanation": "the query returned by an earlier ParseQuery call changed when a later text was parsed"})
+				r.Eval(checked)
+				return
+			}
+		}
+		ring = append(ring, kept{text, q, snap})
+		if len(ring) > 6 {
+			ring = ring[1:]
+		}
+	}
+	r.Eval(checked)
+	r.Count("earlier_results_compared_again_after_later_parses", int64(checked))
+	r.Distinct("retention")
+}
